@@ -24,7 +24,7 @@ PROPS = [f"C{i:02d}" for i in range(1, 19)]
 
 def _env():
     env = dict(os.environ)
-    env["PYTHONHASHSEED"] = "0"
+    env["PYTHONHASHSEED"] = os.environ.get("VERIF_HASHSEED", "0")
     env["PYTHONDONTWRITEBYTECODE"] = "1"
     env["PYTHONPATH"] = VERIF + os.pathsep + env.get("PYTHONPATH", "")
     env.setdefault("OMP_NUM_THREADS", "1")
@@ -81,7 +81,12 @@ def run(prop, tier, seed):
         opt = ["-O"] if (optmode == "all" or (optmode == "last" and nshards > 1 and i == nshards - 1)) else []
         cmd = [python()] + opt + ["-X", "faulthandler", "-m", "vmon.shard", prop, tier, str(seed), str(i), str(nshards), str(deadline), out]
         log = open(os.path.join(outdir, f"shard{i}.log"), "w")
-        procs.append((i, out, log, subprocess.Popen(cmd, cwd=VERIF, env=_env(), stdout=log, stderr=subprocess.STDOUT)))
+        env = _env()
+        if not os.environ.get("VERIF_HASHSEED"):
+            # set/dict-of-str iteration order is part of the environment too: every shard gets its own
+            # (deterministic) hash seed instead of one fixed order for all
+            env["PYTHONHASHSEED"] = str((seed * 1009 + i * 7919) % 4294967295)
+        procs.append((i, out, log, subprocess.Popen(cmd, cwd=VERIF, env=env, stdout=log, stderr=subprocess.STDOUT)))
     dead = []
     for i, out, log, p in procs:
         left = watchdog - (time.monotonic() - t0)
